@@ -16,8 +16,8 @@ TRUSTED = [
 ASSUMPTIONS = [
     "a Go slice is never longer than MaxInt64 (hypothesis of c11_hdr)",
     "media type of a header framing is its own strings.TrimSpace and has no line feed (usable_mime; holds for LSP's constant and for \"\")",
-    "RawJSON: c11_rawjson_partial assumes per record that the scanner model finds the record's end whatever follows (proved for "
-    "closed instances only); numbers and other scalars are not self-delimiting and are outside the claim",
+    "RawJSON: the round trip is claimed for the empty record and for JSON objects, arrays and strings without outer white space "
+    "(json_record, a boolean checker over the scanner model); bare numbers and literals are not self-delimiting and outside the claim",
 ]
 
 RULE = ("pipelined round trips through the real Send and the real Recv of Line/Split(b)/StrictHeader(mt)/Header(mt)/LSP/RawJSON behind a "
